@@ -34,3 +34,7 @@ def run(ctx, test="^TestVerifC01$", name="C01"):
             return
         ctx.records += uni
         ctx.model("Run.RunC20", uni, shard=300)
+        # a call's outcome must come from the peer the call was made to: the multi-session histories of C04 (several peers on one
+        # server, responses under foreign call ids) are replayed here as well
+        import props.C04 as c04
+        c04.run(ctx, name="C01-multi")
